@@ -2,7 +2,7 @@
 
 ENGINES = [
     {'name': 'crawler', 'path': 'mc/crawl.py',
-     'serves_properties': ['C01', 'C02', 'C03', 'C05', 'C06', 'C07', 'C08', 'C10', 'C13'],
+     'serves_properties': ['C01', 'C02', 'C03', 'C05', 'C06', 'C07', 'C08', 'C10', 'C12', 'C13'],
      'kind_free_text': 'in-process world (mc/world.py: real Flask app, virtual clock, snapshots) + independent MPD '
                        'reader (mc/mpd.py) + independent ISO-BMFF reader (mc/bmff.py) + synthetic media writer '
                        '(mc/synth.py); clock transition system over critical instants'},
@@ -174,5 +174,18 @@ CHECKS['C11'] = dict(
          'malformed, wrong length}; ContentProtection elements of 8 template/mode pairs x DRM selections match the '
          'selection, default_KID equals the stored tenc KID and embedded pssh/pro equal what the init segment carries.',
     note='Oracles: hashlib, uuid, mc/aes128.py (FIPS-197 self-tested), lxml, mc/bmff.py.')
+
+CHECKS['C12'] = dict(
+    engine='crawler',
+    technique='bounded-exhaustive generation of multi-period definitions created in the real store x mode x clocks; per-Period segment cursor vs stored bytes',
+    design_ref='DESIGN.md §7 C12',
+    text='Definitions are generated exhaustively from {bbb, tears, synirr} x start offset {0, 1, 1.5 segments, last-1} x '
+         'duration {2, 2.5 segments, to the end} x track sets - all single Periods, all ordered pairs and triples of a '
+         'reduced set - created through the model layer in a private copy of the store, served in vod and (live) at '
+         '3-6 clocks incl. loop wraps; Periods must be contiguous, sum to mediaPresentationDuration / cover the '
+         'time-shift window with unique ids; every number a Period admits is fetched: payload == stored segment '
+         '(nearest start to the source offset + k), decode times from 0 and gapless, sequence == number; past the '
+         'end of the source and foreign Period keys are refused.',
+    note='Definitions are inserted with World.add_mps (model layer), the management API is exercised by C17.')
 
 NOT_BUILT = {}
